@@ -33,6 +33,19 @@ def triuscBlk (k : Nat) (b : List Rat) : List Rat := ofFn k fun i j => if j < i 
 def sdotBlk (k : Nat) (x y : List Rat) : Rat :=
   ((List.range k).map fun j => ((List.range k).map fun i =>
     if i == j then ent k x i j * ent k y i j else if j < i then 2 * (ent k x i j * ent k y i j) else 0).sum).sum
+/-! packed storage of 's' blocks (`pack` / `unpack`): the lower triangle column by column; off-diagonal entries carry a factor `r`
+(√2 in the code, so that the ordinary inner product of packed vectors is the 's' inner product) -/
+/-- offset of column `j` in the packed storage of a block of order `k` -/
+def poff (k : Nat) : Nat → Nat
+  | 0 => 0
+  | j + 1 => poff k j + (k - j)
+def packBlk (r : Rat) (k : Nat) (b : List Rat) : List Rat :=
+  (List.range k).flatMap fun j => (List.range (k - j)).map fun t => if t = 0 then ent k b j j else r * ent k b (j + t) j
+/-- entry `(i, j)`, `j ≤ i`, of a packed block -/
+def pent (k : Nat) (p : List Rat) (i j : Nat) : Rat := p.getD (poff k j + (i - j)) 0
+/-- `unpack`: the lower triangle is restored (off-diagonal entries divided by `r`); the strict upper triangle is not written (0 here) -/
+def unpackBlk (r : Rat) (k : Nat) (p : List Rat) : List Rat :=
+  ofFn k fun i j => if i < j then 0 else if i = j then pent k p i j else pent k p i j / r
 def matmul (k : Nat) (A B : Nat → Nat → Rat) (i j : Nat) : Rat := ((List.range k).map fun t => A i t * B t j).sum
 
 /-! ### second-order-cone blocks `(x₀, x₁)` -/
